@@ -183,8 +183,11 @@ def run(tier):
     C = vp.Check("C01", tier, "model_checking")
     C.cov["rule"] = ("every complete program of <= MaxTok tokens over the escape alphabet x {autoescape on, off, on with a bound x}; "
                      "non-trivial = distinct (program, environment) with a specified reference result")
-    n = render_check.run_theme(C, "escape", 3 if tier == "quick" else 4, traced=True, also_str=True)
+    n = render_check.run_theme(C, "escape", 3, traced=True, also_str=True)
     if tier == "thorough":
+        # one token more, exact text only (the traces of 4-token programs over a 26-character string do not fit in memory;
+        # their constructs are the ones validated at 3 tokens and in the simulation below)
+        n += render_check.run_theme(C, "escape", 4, traced=False, also_str=True, tag="render-escape-4-text")
         n += render_check.run_theme(C, "escape", 8, traced=True, simulate=4000, depth=12, workers=1, tag="render-sim-escape", also_str=True)
     C.cov["sweep_renders"] = sweep(C, tier)
     suffixes(C)
